@@ -16,6 +16,7 @@ def eval (ps : Nat) (fn : String) (a : List Nat) : Option String :=
   | "ptrseg", [x] => some (toString (_mi_ptr_segment x))
   | "pow2", [x] => some (toString (_mi_is_power_of_two x))
   | "bcount", [x] => some (toString (mi_block_count_of_size x))
+  | "absize", [x] => some (toString (mi_arena_block_size x))
   | "binsize", [x] => some (toString (_mi_bin_size x))
   | "slicebin", [x] => some (toString (mi_slice_bin x))
   | "mask", [c, i] => some (toString (mi_bitmap_mask_ c i))
